@@ -46,6 +46,8 @@ structure Entry where
   del3 : Nat := 0               -- Delete: value read, before Destruct()
   destructed : Nat := 0         -- number of times Destruct() ran on this entry's value
   ctorRuns : Nat := 0           -- number of completed construct() calls for this entry
+  plain : Bool := false         -- the value is not a Destructor (a *Host of the reverse proxy, the nil of listenerPool): never destructed
+  skipped : Nat := 0            -- Delete calls that found the removed entry's value not to be a Destructor and were done
 deriving DecidableEq, Repr, Inhabited
 
 structure G where
@@ -76,6 +78,10 @@ def bumpVal (s : G) : G := ⟨s.pool, s.ent, s.next, s.nextVal + 1⟩
 def newCtorEntry (k : Nat) : Entry :=
   { key := k, refs := 1, wlocked := true, viaCtor := true, ctor := 1 }
 
+/-- `&usagePoolVal{refs: 1, value: val}` for a val that is not a Destructor -/
+def newPlainEntry (k v : Nat) : Entry :=
+  { key := k, refs := 1, value := some v, holders := 1, plain := true }
+
 /-- `&usagePoolVal{refs: 1, value: val}` -/
 def newStoredEntry (k v : Nat) : Entry :=
   { key := k, refs := 1, value := some v, holders := 1 }
@@ -87,6 +93,7 @@ inductive Label where
   | lnFailDel (e : Nat)                -- up.Lock(); delete(up.pool, key); up.Unlock(); upv.Unlock()
   | lnRead (e : Nat)                   -- upv.RLock(); value, err = …; upv.RUnlock()
   | lsLookup (k : Nat)                 -- LoadOrStore, first region (both branches); val is value number `nextVal`
+  | lspLookup (k : Nat)                -- LoadOrStore of a value that is not a Destructor, first region
   | lsRead (e v : Nat)                 -- upv.RLock(); value = upv.value; failed := upv.err != nil; upv.RUnlock()  (failed: start over)
   | del1 (k : Nat) (h : Option Nat)    -- Delete, first region; `h` = the entry whose value the caller was handed (none: it holds nothing)
   | del2 (e : Nat)                     -- upv.RLock(); val := upv.value; upv.RUnlock()
@@ -139,6 +146,10 @@ def gstep (s : G) : Label → Option G
     match s.pool k with
     | some e => some (bumpVal (updEnt s e fun E => { E with refs := E.refs + 1, lsWaiters := E.lsWaiters + 1 }))
     | none => some (bumpVal (alloc s k (newStoredEntry k s.nextVal)))
+  | .lspLookup k =>
+    match s.pool k with
+    | some e => some (bumpVal (updEnt s e fun E => { E with refs := E.refs + 1, lsWaiters := E.lsWaiters + 1 }))
+    | none => some (bumpVal (alloc s k (newPlainEntry k s.nextVal)))
   | .lsRead e _v =>
     if e < s.next ∧ 0 < (s.ent e).lsWaiters ∧ (s.ent e).wlocked = false then
       if (s.ent e).err then
@@ -156,8 +167,11 @@ def gstep (s : G) : Label → Option G
     else none
   | .del2 e =>
     if e < s.next ∧ 0 < (s.ent e).del2 ∧ (s.ent e).wlocked = false then
-      if (s.ent e).value.isSome then
+      if (s.ent e).value.isSome = true ∧ (s.ent e).plain = false then
         some (updEnt s e fun E => { E with del2 := E.del2 - 1, del3 := E.del3 + 1 })
+      else if (s.ent e).value.isSome = true then
+        -- `val.(Destructor)` fails: nothing to destruct, Delete returns (true, nil)
+        some (updEnt s e fun E => { E with del2 := E.del2 - 1, skipped := E.skipped + 1 })
       else
         some (updEnt s e fun E => { E with del2 := E.del2 - 1 })
     else none
@@ -202,6 +216,7 @@ def refsNow (s : G) (k : Nat) : Option Int := (s.pool k).map fun e => (s.ent e).
 inductive Op where
   | ln (k : Nat) (ok : Bool)   -- LoadOrNew(k, constructor that succeeds / fails)
   | ls (k : Nat)               -- LoadOrStore(k, fresh value)
+  | lsp (k : Nat)              -- LoadOrStore(k, fresh value that is not a Destructor)
   | del (k : Nat)              -- Delete(k), unconditionally
   | cdel (k : Nat)             -- Delete(k) if this thread holds k (it was handed k's value and has not released it), else skip
   | refs (k : Nat)
@@ -281,7 +296,9 @@ def delStart (s : G) (th : Thread) (k : Nat) (op : Op) (rest : List Op) : Move :
 def delRead (s : G) (th : Thread) (e : Nat) (rest : List Op) : Move :=
   if (s.ent e).wlocked then .blocked else
   match (s.ent e).value with
-  | some v => .go [.del2 e] { th with pc := .destruct e v } ("E" ++ toString v)
+  | some v =>
+    if (s.ent e).plain then .go [.del2 e] { prog := rest, pc := .idle, held := th.held } "En"
+    else .go [.del2 e] { th with pc := .destruct e v } ("E" ++ toString v)
   | none => .go [.del2 e] { prog := rest, pc := .idle, held := th.held } "En"
 
 /-- a client's cleanup continues with its next key, or is finished when it remembers nothing -/
@@ -312,6 +329,14 @@ def tmove (nk : Nat) (s : G) (th : Thread) : Move :=
       match s.pool k with
       | some e => .go [.lsLookup k] { th with pc := .lsWait e s.nextVal } ("Sw" ++ toString s.nextVal)
       | none => .go [.lsLookup k] { prog := rest, pc := .idle, held := (k, s.next) :: th.held } ("Ss" ++ toString s.nextVal)
+    | .idle, .lsp k =>
+      match s.pool k with
+      | some e => .go [.lspLookup k] { th with pc := .lsWait e s.nextVal } ("Sw" ++ toString s.nextVal)
+      | none => .go [.lspLookup k] { prog := rest, pc := .idle, held := (k, s.next) :: th.held } ("Ss" ++ toString s.nextVal)
+    | .lsWait e v, .lsp k =>
+      if (s.ent e).wlocked then .blocked else
+      if (s.ent e).err then .go [.lsRead e v] { th with pc := .idle } "Lr"
+      else .go [.lsRead e v] { prog := rest, pc := .idle, held := (k, e) :: th.held } ("L" ++ showVal (lsReadRet s e))
     | .lsWait e v, .ls k =>
       if (s.ent e).wlocked then .blocked else
       if (s.ent e).err then .go [.lsRead e v] { th with pc := .idle } "Lr"   -- start over (same operation again)
